@@ -83,6 +83,7 @@ type Run struct {
 
 	scen    map[string]Replayer
 	onWedge []func()
+	beats   atomic.Int64
 	viol    []Violation
 	perScen map[string]int
 	nviol   int
@@ -142,7 +143,7 @@ func (r *Run) stallMonitor() {
 	last, since := r.evals.Load()+r.states.Load(), time.Now()
 	for {
 		time.Sleep(5 * time.Second)
-		if cur := r.evals.Load() + r.states.Load() + r.transitions.Load(); cur != last {
+		if cur := r.evals.Load() + r.states.Load() + r.transitions.Load() + r.beats.Load(); cur != last {
 			last, since = cur, time.Now()
 			continue
 		}
@@ -181,6 +182,10 @@ func (r *Run) State(n int64)      { r.states.Add(n) }
 func (r *Run) Transition(n int64) { r.transitions.Add(n) }
 func (r *Run) Trace(n int64)      { r.traces.Add(n) }
 func (r *Run) Evals() int64       { return r.evals.Load() }
+
+// Beat tells the stall monitor that the check is alive although no evaluation has been recorded yet
+// (a parent that supervises a child process doing the exploration calls it while the child makes progress).
+func (r *Run) Beat() { r.beats.Add(1) }
 
 func H(s string) uint64 {
 	h := fnv.New64a()
